@@ -103,6 +103,11 @@ class StreamDouble:
 _BASE = {}
 
 
+class KeepOpen(io.BytesIO):
+    def close(self):
+        pass
+
+
 def base_file(spec):
     """a well-formed LAS file for spec = (version, fmt, npoints, nevlrs); one VLR so that it can be made undecodable"""
     spec = tuple(spec)
@@ -116,7 +121,14 @@ def base_file(spec):
     pts = lasio.rand_points(rng, h, n, pattern="random")
     ev = laspy.vlrs.vlrlist.VLRList([laspy.VLR(user_id="ev", record_id=i, description="e", record_data=bytes(range(5 + i)))
                                      for i in range(nev)])
-    raw = lasio.write_las(h, pts, ev if nev else None)
+    bio = KeepOpen()          # the contents must come out even when the writer under test closes what it should not
+    w = laspy.LasWriter(bio, h, closefd=False)
+    if n:
+        w.write_points(pts)
+    if nev:
+        w.write_evlrs(ev)
+    w.close()
+    raw = bio.getvalue()
     _BASE[spec] = raw
     return raw
 
@@ -281,6 +293,7 @@ def pos_of(stream, kind):
 # events (lists, JSON-able):
 #  ["O", mode, closefd, read_evlrs, outcome, variant]   laspy.open
 #  ["P", n] ["S", pos, whence] ["A"] ["Q"] ["W"]         body operations
+#  ["We"]                write_evlrs (mode w on a 1.4 header; otherwise the same as W); nothing is written after it
 #  ["B", "l"|"o"]        the with-body raises a LaspyException / a RuntimeError of the user
 #  ["Wbad"]              the with-body calls write_points/append_points with another point format (LaspyException from laspy)
 #  ["Sbad"]              the with-body seeks past the end (IndexError from laspy)
@@ -299,6 +312,8 @@ def ev_tok(ev, fi):
         return f"S{ev[1]}:{ev[2]}"
     if k in ("A", "Q", "W", "X", "C"):
         return k
+    if k == "We":
+        return "W"
     if k == "B":
         return "B" + ev[1]
     if k == "Wbad":
@@ -359,6 +374,11 @@ def run_impl(scen):
         info = {}
         fi = ZERO_FI
         was_open = not stream.closed
+        if handle is None and k in ("P", "S", "A", "Q", "W", "We", "X", "B", "Wbad", "Sbad", "C"):
+            # the open that should have given a handle did not: nothing to operate on (the open itself is what disagrees)
+            fis.append(fi)
+            steps.append({"res": "ig", "exc": None, "closed": stream.closed, "pos": None, "ps": None, "handle": False})
+            continue
         if k == "N":
             content = content_for_next(spec, events, i)
             try:
@@ -379,7 +399,7 @@ def run_impl(scen):
                     kw["read_evlrs"] = re
             try:
                 handle = laspy.open(stream, mode=mode, closefd=cf, **kw)
-                sess = {"mode": mode, "closefd": cf, "first_read": mode == "r" and pos_valid}
+                sess = {"mode": mode, "closefd": cf, "first_read": mode == "r" and pos_valid, "re": re}
                 if mode == "r":
                     info["offset_expected"] = fi["offset"]
                     info["pos_checked"] = pos_valid
@@ -392,11 +412,12 @@ def run_impl(scen):
                 gone.append({"how": "failed-open", "mode": mode, "outcome": outcome, "closefd": cf, "was_open": was_open,
                              "closed": stream.closed, "at": i, "exc": type(e).__name__,
                              "precondition": mode == "w" and was_open and not seekable_kind(kind)})
-        elif k in ("P", "S", "A", "Q", "W"):
+        elif k in ("P", "S", "A", "Q", "W", "We"):
             try:
                 if k == "P":
                     rec = handle.read_points(ev[1])
                     if sess.get("first_read"):
+                        info["re"] = sess["re"]
                         info["first_points"] = lasio.rec_bytes(rec)
                         f0 = finfo_of(content)
                         kpts = f0["count"] if ev[1] < 0 else min(ev[1], f0["count"])
@@ -407,6 +428,8 @@ def run_impl(scen):
                     handle.read()
                 elif k == "Q":
                     handle.point_source
+                elif k == "We" and sess["mode"] == "w" and handle.header.version.minor >= 4:
+                    handle.write_evlrs(laspy.vlrs.vlrlist.VLRList([laspy.VLR(user_id="late", record_id=9, description="", record_data=b"xyz")]))
                 else:
                     pts = laspy.PackedPointRecord.zeros(2, handle.header.point_format)
                     handle.write_points(pts) if sess["mode"] == "w" else handle.append_points(pts)
@@ -452,9 +475,11 @@ def run_impl(scen):
             if outcome == "ok" and was_open:
                 fi = finfo_of(content)
             try:
+                prepared = pos_valid
                 las = laspy.read(stream, closefd=cf)
-                info["points_read"] = len(las.points)
-                info["points_expected"] = fi["count"]
+                if prepared and outcome == "ok":
+                    info["points_read"] = len(las.points)
+                    info["points_expected"] = fi["count"]
             except Exception as e:  # noqa
                 ex = e
                 pos_valid = False
@@ -522,7 +547,7 @@ def content_for_next(spec, events, i):
 # the matrix (enumerated completely) and random histories
 # ---------------------------------------------------------------------------------
 READ_BODIES = [[], [["P", 2]], [["A"]], [["Q"]], [["S", 0, 0]], [["P", 1], ["A"]], [["P", -1]], [["S", 1, 0], ["P", 1]]]
-WRITE_BODIES = [[], [["W"]]]
+WRITE_BODIES = [[], [["W"]], [["W"], ["We"]]]
 ENDS = [["X"], ["C"], ["B", "o"], ["B", "l"]]
 
 
@@ -627,6 +652,9 @@ def random_history(rng):
                     events.append(["A"])
                 else:
                     events.append(["Q"])
+            elif rng.random() < 0.25:
+                events.append(["We"])
+                break
             else:
                 events.append(["W"])
         u = rng.random()
@@ -696,12 +724,16 @@ def correspond(ctx):
     scs = scenarios(ctx)
     impl = []
     cmds = []
+    import laspy  # noqa: F401
+    gc.collect()
+    gc.freeze()       # what exists now is not rescanned by the per-scenario gc.collect()
     for sc in scs:
         steps, gone, after, fis = run_impl(sc)
         impl.append((steps, gone, after))
         _RUNS[repr((sc["src"], sc["file"], sc["events"], sc.get("writable", True)))] = (steps, gone, after)
         toks = [ev_tok(ev, fi) for ev, fi in zip(sc["events"], fis)]
         cmds.append("run " + ("T" if seekable_kind(sc["src"]) else "F") + " " + " ".join(toks))
+    gc.unfreeze()
     outs = common.run_model(cmds, name=DRIVER)
     dis = []
     for sc, (steps, gone, after), line, cmd in zip(scs, impl, outs, cmds):
@@ -771,9 +803,9 @@ def oracle(sc):
                 out.append((f"position after open r read_evlrs={ev[3]} evlrs={sc['file'][3] > 0}",
                             f"caller's stream at {st['pos']}, offset_to_point_data is {st['offset_expected']}"))
         if "first_points" in st and st["res"] == "ok" and st["first_points"] != st["first_points_expected"]:
-            out.append((f"first read_points after open does not return the first records (read_evlrs={sc['events'][0][3]})",
+            out.append((f"first read_points after open does not return the first records (read_evlrs={st.get('re')})",
                         f"got {len(st['first_points'])} bytes, expected {len(st['first_points_expected'])} bytes equal to the file's"))
-        if ev[0] == "L" and st["res"] == "ok" and st.get("points_read") != st.get("points_expected"):
+        if ev[0] == "L" and st["res"] == "ok" and "points_read" in st and st["points_read"] != st["points_expected"]:
             out.append(("laspy.read returned another number of points", f"{st.get('points_read')} != {st.get('points_expected')}"))
     if after["open_before_gc"] and not after["open_after_gc"]:
         out.append(("stream closed once the handle is garbage collected", "open before gc.collect(), closed after"))
@@ -787,6 +819,9 @@ def search(ctx, seeds):
     cand = [d["input"] for d in seeds if isinstance(d.get("input"), dict) and "events" in d["input"]] + scs
     failing = []
     seen = set()
+    import laspy  # noqa: F401
+    gc.collect()
+    gc.freeze()
     for sc in cand:
         sc = {k: v for k, v in sc.items() if k in ("src", "file", "events", "writable")}
         try:
@@ -802,6 +837,7 @@ def search(ctx, seeds):
             failing.append({"kind": kind, "input": small, "observed": [o for k, o in oracle(small) if k == kind][0]})
         if len(failing) >= 8:
             break
+    gc.unfreeze()
     shutil.rmtree(SCRATCH, ignore_errors=True)
     return failing
 
